@@ -52,12 +52,17 @@ func (c *FCfg) Focused(focus string) *FCfg {
 		out.CA *= 5
 	case "catalog":
 		out.Base *= 3
+	case "session": // sessions bound to checks, and the ways such sessions end (check turns critical / is deleted, node goes away …)
+		b := *c.BaseCfg
+		b.Session, b.Killer, b.KV, b.Catalog = 22, 24, 22, 30
+		out.BaseCfg = &b
+		out.Base *= 3
 	}
 	return &out
 }
 
 // Focuses lists the focus names ("" = the plain mix).
-var Focuses = []string{"", "", "vip", "vip", "acl", "peering", "intention", "ca", "catalog"}
+var Focuses = []string{"", "", "vip", "vip", "acl", "peering", "intention", "ca", "catalog", "session"}
 
 // DefaultFCfg is the mix used by C01 and C02.
 func DefaultFCfg() *FCfg {
